@@ -65,7 +65,9 @@ SUBS = [Color.RED, MyStr('a'), MyInt(1), MyFloat(1.0), MyList([1]), MyDict({'a':
         StrEnum_.RED, LoudStr('abc'), LoudInt(5), LoudFloat(2.5)]
 KEYS = ['a', '0', '1', 1, 1.0, True, None, 2.5, Color.RED, MyInt(1), MyFloat(2.5), MyStr('a'),
         float('inf'), -float('inf'), float('nan'), False, 0, 0.0, -0.0, StrEnum_.RED, LoudStr('abc'),
-        LoudInt(5), LoudFloat(2.5)]
+        LoudInt(5), LoudFloat(2.5),
+        # plain-str keys that hold a surrogate pair / lone surrogates (json combines the pair)
+        '\ud83d\ude00', 'k\ud83d\ude00', '\ud83d', '\ude00\ud83d']
 
 
 def typed_eq(a, b):
@@ -145,6 +147,10 @@ def check_sanitize(JsonUtil, v):
         if ok:
             return 'sanitize raised TypeError on a JSON value', None, expected
         return None
+    except Exception as e:
+        # any other exception is a failure of the law, not of the search
+        return ('sanitize raised %s' % type(e).__name__, repr(e),
+                expected if ok else 'TypeError')
     if not ok:
         return 'sanitize accepted a non-JSON value', got, 'TypeError'
     if not typed_eq(got, expected):
@@ -192,6 +198,8 @@ def replay(req):
             got = JsonUtil._key_to_str(k)
         except TypeError:
             got = TypeError
+        except Exception as e:
+            got = type(e)
         if got != exp or (got is not TypeError and type(got) is not str):
             return {'reproduced': True, 'check': '_key_to_str differs from json', 'input': repr(k),
                     'observed': repr(got), 'expected': repr(exp), 'evaluations': n,
